@@ -52,10 +52,10 @@ func (t *tw) obox(b mp4.Box) {
 	var err error
 	// Size() as it is BEFORE this box has ever been encoded: the model assumes an opaque box to be stateless and
 	// the driver reports a box whose Encode writes something else than this Size() / a different size field
-	size0 := b.Size()
-	p := hx.Try(func() { err = b.Encode(&buf) })
+	var size0 uint64
+	p := hx.Try(func() { size0 = b.Size(); err = b.Encode(&buf) })
 	if p != "" {
-		panic(unsupported{"opaque box panics in Encode: " + b.Type()})
+		panic(unsupported{"opaque box panics in Size/Encode: " + b.Type()})
 	}
 	ty := []byte(b.Type())
 	for len(ty) < 4 {
